@@ -997,7 +997,7 @@ Scrape ==
   /\ UNCHANGED <<envVars, obsvVars, strVars, synVars, mpc, dcwc, opener, opc, opened, live, foleft, lpart, clo, spc, sv, rpc, dpc, reop, sinfo, rmVars>>
 
 ScrapeVal(low) ==
-  LET hi(v) == IF low THEN 0 ELSE HighOf(v)       \* (a stale answer: high seqnos below the tracked position)
+  LET hi(v) == IF v \in low THEN 0 ELSE HighOf(v)    \* (low: the vBuckets with a stale answer - a high seqno below the tracked position)
       lagOf(v) == IF offs[v] = NoOff THEN 0 ELSE IF hi(v) > offs[v].seq THEN hi(v) - offs[v].seq ELSE 0
       RECURSIVE Sum(_)
       Sum(S) == IF S = {} THEN 0 ELSE LET x == CHOOSE y \in S : TRUE IN lagOf(x) + Sum(S \ {x})
@@ -1010,7 +1010,7 @@ ScrapeRet(low) ==
   /\ UNCHANGED wind
   /\ up /\ Prompt /\ scr = "wait"
   /\ scr' = "idle"
-  /\ Emit(<<[SeqNosEvS(TRUE, TRUE) EXCEPT !.high = IF low THEN [v \in VB |-> 0] ELSE @], ScrapeVal(low)>>)
+  /\ Emit(<<[SeqNosEvS(TRUE, TRUE) EXCEPT !.high = [v \in VB |-> IF v \in low THEN 0 ELSE @[v]]], ScrapeVal(low)>>)
   /\ UNCHANGED <<envVars, obsvVars, strVars, synVars, mpc, dcwc, opener, opc, opened, live, foleft, lpart, clo, spc, sv, rpc, dpc, reop, sinfo, rmVars>>
 
 -----------------------------------------------------------------------------
@@ -1123,7 +1123,7 @@ Labels ==
   [a : {"Boot", "StartWind", "Quiesce"}]
   \cup (IF RM THEN [a : {"GateOpen"}, vb : VB] \cup [a : {"RmSwitch"}, on : BOOLEAN] \cup [a : {"Absent"}, vb : VB, slot : 2..Slots]
                    \cup [a : {"Report"}, vb : VB, slot : 1..Slots, uuid : RmUuids, seq : 0..MaxSeq] ELSE {})
-  \cup (IF Scrapes THEN [a : {"Scrape"}] \cup [a : {"ScrapeRet"}, low : BOOLEAN] ELSE {})
+  \cup (IF Scrapes THEN [a : {"Scrape"}] \cup [a : {"ScrapeRet"}, low : SUBSET VB] ELSE {})
   \cup (IF MaxCrash > 0 THEN [a : {"Crash"}] ELSE {})
   \cup (IF MaxCrash > 0 /\ MaxFail > 0 THEN [a : {"Flush"}, vb : VB] ELSE {})
   \cup [a : {"LoadRet"}, ok : IF MaxFail > 0 THEN BOOLEAN ELSE {TRUE}, part : IF MaxFail > 0 THEN BOOLEAN ELSE {FALSE}]
